@@ -46,7 +46,8 @@ def pick_name(rng, hostile=0.5, pools=None):
 # schema: {"k": "s|d|c|l|a|m|j", "name": str|None, "fields": [schema] (d), "member": schema (l, a, m)}
 # node  : {"id", "k", "name", "kids": [node], "member": schema (l,a,m), "set": bool (c)}
 
-def rand_schema(rng, depth, name, hostile, pools=None, top=False):
+def rand_schema(rng, depth, name, hostile, pools=None, top=False, unnamed=0.12):
+    top_level_no_unnamed = False
     r = rng.random()
     if depth <= 0 or (not top and r < 0.25):
         k = "s"
@@ -72,12 +73,15 @@ def rand_schema(rng, depth, name, hostile, pools=None, top=False):
             nm = pick_name(rng, hostile, pools)
             if nm not in names:
                 names.append(nm)
-        s["fields"] = [rand_schema(rng, depth - 1, nm, hostile, pools) for nm in names]
+        if not top_level_no_unnamed and rng.random() < unnamed:
+            # one UNNAMED field (at most one per Dict: they share the key None), at a random place
+            names[rng.randrange(len(names))] = None
+        s["fields"] = [rand_schema(rng, depth - 1, nm, hostile, pools, unnamed=unnamed) for nm in names]
         if rng.random() < 0.15:
             s["sparse"] = True
     elif k == "l":
         mname = rng.choice([None, None, "m", pick_name(rng, hostile, pools)])
-        s["member"] = rand_schema(rng, depth - 1, mname, hostile, pools)
+        s["member"] = rand_schema(rng, depth - 1, mname, hostile, pools, unnamed=unnamed)
     elif k in ("a", "m"):
         s["member"] = {"k": "s", "name": rng.choice([None, "m", pick_name(rng, hostile, pools)])}
     return s
@@ -603,10 +607,12 @@ def rand_history(rng, tree, nops, setfield=0.0, queries=0.25, detached=0.5, reje
         if sparse:
             pos = rng.choice(sparse)
             n = _node_at(t, pos)
-            field = rng.choice(n["fields"])
+            field = rng.choice([f for f in n["fields"] if f["name"] is not None] or n["fields"])
+            if field["name"] is None:
+                continue
             new = instantiate(rng, field, maxlen=2)
             nxt = _number_from(new, nxt)
-            newname = rng.choice(["y", "renamed", field["name"] + "2", rng.choice(n["fields"])["name"],
+            newname = rng.choice(["y", "renamed", field["name"] + "2", (rng.choice(n["fields"])["name"] or "y"),
                                   pick_name(rng, 0.5, [PUNCT, DIGITS, UNICODE])])
             new["name"] = newname
             if newname != field["name"]:
@@ -723,7 +729,10 @@ def rand_history(rng, tree, nops, setfield=0.0, queries=0.25, detached=0.5, reje
 
 
 def esc_name(name):
-    """the documented spelling of a field name as a path segment"""
+    """the documented spelling of a field name as a path segment; an unnamed field (name None, stored under
+    the key None) is the empty step (05c4adc)"""
+    if name is None:
+        return ""
     if name in (".", ".."):
         return name.replace(".", "\\.")
     e = name.replace("/", "\\/").replace("[", "\\[")
@@ -745,9 +754,15 @@ def doc_segments(top, target_id):
     return go(top, [])
 
 
+def fq_of_segments(segs):
+    """'/' + '/'.join(segs), with a slash of its own after an empty LAST step (a single trailing slash is not
+    a step; 05c4adc)"""
+    return "/" + "/".join(segs) + ("/" if segs and segs[-1] == "" else "")
+
+
 def doc_fq(top, target_id):
     segs = doc_segments(top, target_id)
-    return None if segs is None else "/" + "/".join(segs)
+    return None if segs is None else fq_of_segments(segs)
 
 
 def ref_read(fq):
@@ -780,7 +795,8 @@ def ref_eval(tree, fq):
     n = tree
     for step in ref_read(fq):
         nxt = None
-        if step is not None:
+        if step is not None or n["k"] in ("d", "c"):
+            # (the empty step None is looked up under the key None of a mapping: an unnamed field)
             if n["k"] in ("d", "c"):
                 for k in n["kids"]:
                     if k.get("key", k["name"]) == step:
@@ -996,6 +1012,8 @@ def doc_child(el, s):
             if k.name == s:
                 return k
         return None
+    if s is None:
+        return None   # the empty step: only a mapping can hold a child under None
     if isinstance(el, Sequence):
         try:
             i = int(s)
@@ -1092,7 +1110,7 @@ def ord_denote(path, start, strict, removed=frozenset()):
             elif op is paths.HERE:
                 pass
             elif op is paths.NAME:
-                c = doc_child(el, data) if data is not None else None
+                c = doc_child(el, data)
                 if c is None:
                     return ("err", d, "LookupError") if strict else ("ok", [])
                 el = c
